@@ -478,6 +478,18 @@ pub fn judge(s: &State) -> Verdict {
     v
 }
 
+fn has_duplicate_params(g: &syn::Generics) -> bool {
+    let mut seen = std::collections::BTreeSet::new();
+    g.params.iter().any(|p| {
+        let n = match p {
+            syn::GenericParam::Type(t) => t.ident.to_string(),
+            syn::GenericParam::Const(c) => c.ident.to_string(),
+            syn::GenericParam::Lifetime(l) => format!("'{}", l.lifetime.ident),
+        };
+        !seen.insert(n)
+    })
+}
+
 fn judge_plain(s: &State) -> Verdict {
     let run = || match s.entry {
         Entry::Attr => expand::expand_attr(&s.attr, &s.item),
@@ -502,6 +514,7 @@ fn judge_plain(s: &State) -> Verdict {
                 Ok(items) => {
                     let mut errors = 0;
                     let input_is_impl = matches!(syn::parse_str::<syn::Item>(&s.item), Ok(syn::Item::Impl(_)));
+                    let input_has_duplicate_params = syn::parse_str::<syn::Item>(&s.item).ok().map(|it| match &it { syn::Item::Struct(x) => has_duplicate_params(&x.generics), syn::Item::Enum(x) => has_duplicate_params(&x.generics), syn::Item::Impl(x) => has_duplicate_params(&x.generics), _ => false }).unwrap_or(true);
                     for it in &items {
                         match it {
                             OutItem::Error(m) => {
@@ -519,6 +532,9 @@ fn judge_plain(s: &State) -> Verdict {
                                 syn::GenericParam::Const(c) => c.default.is_some() || c.eq_token.is_some(),
                                 syn::GenericParam::Lifetime(_) => false,
                             }) => return Verdict::Bad("output-not-well-formed".into(), format!("generic parameter defaults on a generated impl: impl{}", item.generics.to_token_stream())),
+                            // likewise: the same name twice among the parameters of a generated impl (unless the input's own
+                            // parameter list already has the duplicate)
+                            OutItem::Impl { item, .. } if !input_has_duplicate_params && has_duplicate_params(&item.generics) => return Verdict::Bad("output-not-well-formed".into(), format!("a generic parameter name is used twice on a generated impl: impl{}", item.generics.to_token_stream())),
                             _ => {}
                         }
                     }
